@@ -5,6 +5,7 @@ and 6 decoding, the cmap table container, GetBest.  Area `cmapx`.
 import SfntV.Proofs.Cmapx12
 import SfntV.Proofs.Cmapx06
 import SfntV.Proofs.CmapxTable
+import SfntV.Proofs.CmapxRT
 
 namespace SfntV.C09b
 open SfntV SfntV.Cmap12 SfntV.Cmap06
@@ -301,6 +302,62 @@ theorem C09_get_no_panic (dec4 : Bytes → Bool → Outcome (List (Nat × Nat)))
                 omega
 
 open SfntV.CmapTable in
+/-- **A cmap table survives Encode/Decode with all keys and subtables intact.**  For every table
+(list of entries in `Table.Encode`'s sorted order; in fact any order) whose subtables carry a valid
+format/length header (`ValidSub`: format 0/2/4/6 with a 16-bit length, 8/10/12/13 with a 32-bit
+length at offset 4, 14 with a 32-bit length at offset 2, the length field equal to the subtable's
+size, at least 10 resp. 12 bytes), whose keys have platform ≤ 4, a 16-bit encoding and the language
+rule (language = the subtable's language field on platform 1, 0 elsewhere), with fewer than 65 536
+entries and an encoding shorter than 4 GiB: the model of `cmap.Decode` applied to the model of
+`Table.Encode` returns exactly the same entries — every (platform, encoding, language) key with
+exactly its bytes, also when several keys share one stored subtable. -/
+theorem C09_table_roundtrip (t : Table) (hv : ∀ kd ∈ t, ValidSub kd.1 kd.2) (hn : t.length < 65536)
+    (hsz : (CmapTable.encode t).length < 4294967296) :
+    CmapTable.decode (CmapTable.encode t) = .ok t := by
+  have hmod : (4 + 8 * t.length) % 4294967296 = 4 + 8 * t.length := Nat.mod_eq_of_lt (by omega)
+  have henc : CmapTable.encode t = ([0, 0] ++ be16 t.length ++ [] ++
+      (assign [] (4 + 8 * t.length) t).flatMap recBytes) ++ ([] ++ (assign [] (4 + 8 * t.length) t).flatMap (·.data)) := by
+    unfold CmapTable.encode
+    simp only [hmod, List.append_nil, List.nil_append]
+  have hloop := loop_encode t [] (4 + 8 * t.length) 0 [] ([0, 0] ++ be16 t.length) [] [] (CmapTable.encode t)
+    (4 + 8 * t.length) (by simp [be16]) rfl (by omega) rfl hv (by intro q hq; cases hq) (Nat.le_refl _) henc hsz
+  have hlen : 4 + 8 * t.length ≤ (CmapTable.encode t).length := by
+    rw [henc]
+    simp only [List.length_append, flatMap_recBytes_length, assign_length, be16, List.length_cons, List.length_nil]
+    omega
+  have hv0 : rd16 (CmapTable.encode t) 0 = .ok 0 := by
+    rw [henc]
+    simp [rd16, rd8, be16]
+  have hv2 : rd16 (CmapTable.encode t) 2 = .ok t.length := by
+    rw [henc]
+    simp only [rd16, rd8, be16, List.cons_append, List.nil_append, List.append_nil, List.getElem?_cons_zero,
+      List.getElem?_cons_succ, UInt8.toNat_ofNat']
+    congr 1; omega
+  unfold CmapTable.decode
+  rw [if_neg (by omega)]
+  simp only [hv0, hv2]
+  rw [if_neg (by omega), if_neg (by omega), hmod]
+  exact hloop
+
+open SfntV.CmapTable in
+/-- **Shared subtables stay shared.**  `Table.Encode` stores every distinct (non-empty) subtable
+exactly once, in the order of first occurrence: the data region after the 4 + 8·n header bytes is
+the concatenation of the distinct subtables, however many keys refer to each.  (Together with
+`C09_table_roundtrip`: every key still decodes to its full bytes.) -/
+theorem C09_table_shared (t : Table) (hne : ∀ kd ∈ t, kd.2 ≠ []) :
+    ∃ hdr : Bytes, hdr.length = 4 + 8 * t.length ∧
+      CmapTable.encode t = hdr ++ (stored [] t).flatMap id := by
+  refine ⟨[0, 0] ++ be16 t.length ++ (assign [] ((4 + 8 * t.length) % 4294967296) t).flatMap recBytes, ?_, ?_⟩
+  · simp only [List.length_append, flatMap_recBytes_length, assign_length, be16, List.length_cons, List.length_nil]
+  · unfold CmapTable.encode
+    simp only []
+    rw [assign_data t [] _ [] hne]
+    intro d _
+    constructor
+    · intro ⟨q, hq, _⟩; cases hq
+    · intro h; cases h
+
+open SfntV.CmapTable in
 theorem bestLoop_ok (dec4 : Bytes → Bool → Outcome (List (Nat × Nat))) (t : Table) (s : Sub) :
     ∀ cs, bestLoop dec4 t cs = .ok s ↔
       ∃ pre c post, cs = pre ++ c :: post ∧ (∀ x ∈ pre, ∃ e, CmapTable.get dec4 t ⟨x.1, x.2, 0⟩ = .err e) ∧
@@ -383,6 +440,37 @@ theorem C09_best_none (dec4 : Bytes → Bool → Outcome (List (Nat × Nat))) (t
     exact ih (fun x hx => h x (List.mem_cons_of_mem _ hx))
 
 set_option maxRecDepth 8192 in
+open SfntV.CmapTable in
+/-- **`InstallCMap` and `GetBest` agree.**  `Font.InstallCMap` stores the encoded subtable under
+(0,4)+(3,10) when the code range exceeds the BMP and under (0,3)+(3,1) otherwise, both keys sharing
+the same bytes; whenever that subtable decodes, `GetBest` on the installed table returns exactly it
+(through the Windows key, which precedes the Unicode-platform key of the same repertoire). -/
+theorem C09_install (dec4 : Bytes → Bool → Outcome (List (Nat × Nat))) (high : Int) (sub : Bytes) (s : Sub)
+    (f : Nat) (hf : rd16 sub 0 = .ok f) (hdec : decodeSub dec4 f sub false = .ok s) :
+    getBest dec4 (install high sub) = .ok s ∧
+    (install high sub).map (·.2) = [sub, sub] ∧
+    (∀ kd ∈ install high sub, (kd.1.p, kd.1.e) ∈ Gen.cmapxCandidates ∧ kd.1.l = 0) := by
+  have hc : Gen.cmapxCandidates = [(3, 10), (0, 4), (3, 1), (0, 3), (1, 0)] := by decide
+  unfold install
+  by_cases hh : high > 0xFFFF
+  · rw [if_pos hh]
+    refine ⟨?_, rfl, ?_⟩
+    · unfold getBest
+      rw [hc]
+      simp [bestLoop, CmapTable.get, tableGet, hf, hdec]
+    · intro kd hkd
+      simp only [List.mem_cons, List.mem_nil_iff, or_false] at hkd
+      rcases hkd with rfl | rfl <;> exact ⟨by rw [hc]; simp, rfl⟩
+  · rw [if_neg hh]
+    refine ⟨?_, rfl, ?_⟩
+    · unfold getBest
+      rw [hc]
+      simp [bestLoop, CmapTable.get, tableGet, hf, hdec]
+    · intro kd hkd
+      simp only [List.mem_cons, List.mem_nil_iff, or_false] at hkd
+      rcases hkd with rfl | rfl <;> exact ⟨by rw [hc]; simp, rfl⟩
+
+set_option maxRecDepth 8192 in
 /-- The facts regenerated from the Go source that the models hard-code: the formats accepted by
 `Decode`'s switch all have an entry in the `decoders` map (so `Get` never calls nil), which formats
 have a real decoder, `minLength`, and the numeric limits of the format 12 and 6 decoders. -/
@@ -396,5 +484,81 @@ theorem C09_generated_facts :
     Gen.decode12Literals.count 65536 = 1 ∧ Gen.decode12Literals.count 4294967295 = 1 ∧
     Gen.decode6Literals.count 65536 = 1 ∧ Gen.cmapxMacDec.length = 128 := by
   refine ⟨by decide, by decide, by decide, by decide, by decide, by decide, by decide, ?_, ?_, ?_, ?_, ?_, ?_⟩ <;> rfl
+
+/-! ## non-vacuity and the counterexamples that forced the repairs -/
+
+/-- a map with a run crossing the BMP boundary, glyph 0xFFFF followed by an explicit glyph 0 -/
+def exMap : KV := [(65, 3), (66, 4), (65535, 10), (65536, 11), (128512, 65535), (128513, 0), (4294967294, 7)]
+
+example : Map32 exMap := by
+  refine ⟨by decide, ?_⟩
+  intro k hk
+  simp only [exMap, List.mem_cons, List.mem_nil_iff, or_false] at hk
+  rcases hk with rfl | rfl | rfl | rfl | rfl | rfl | rfl <;> decide
+
+example : (group exMap).length = 5 := by decide
+
+example : ∃ b, encode exMap 0 = some b ∧ specLookup b 128513 = 0 ∧ specLookup b 128512 = 65535 ∧
+    specLookup b 65536 = 11 := by
+  have h := C09_fmt12_total exMap 0 (by decide)
+  cases hb : encode exMap 0 with
+  | none => rw [hb] at h; cases h
+  | some b =>
+    have hm : Map32 exMap := by
+      refine ⟨by decide, ?_⟩
+      intro k hk
+      simp only [exMap, List.mem_cons, List.mem_nil_iff, or_false] at hk
+      rcases hk with rfl | rfl | rfl | rfl | rfl | rfl | rfl <;> decide
+    have := (C09_fmt12 exMap 0 hm b hb).1
+    exact ⟨b, rfl, by rw [this]; decide, by rw [this]; decide, by rw [this]; decide⟩
+
+/-- **The defect repaired in `Format12.Encode`.**  The original loop compared glyph ids in 16-bit
+arithmetic (`cmap[keys[i]] != cmap[keys[i-1]]+1`, 0xFFFF+1 = 0): the map {100 ↦ 0xFFFF, 101 ↦ 0} was
+written as ONE group (100..101, start glyph 0xFFFF), which the specification reads as 101 ↦ 65536,
+not the map's glyph 0. -/
+theorem C09_fmt12_orig_wrap :
+    groupOrig [(100, 65535), (101, 0)] = [⟨100, 101, 65535⟩] ∧
+    findGroup (groupOrig [(100, 65535), (101, 0)]) 101 = 65536 ∧
+    lookupKV [(100, 65535), (101, 0)] 101 = 0 ∧
+    group [(100, 65535), (101, 0)] = [⟨100, 100, 65535⟩, ⟨101, 101, 0⟩] := by decide
+
+/-- The decoder refuses a group ending at 0xFFFFFFFF ("avoid integer overflow in the loop"), so the
+one-entry map {0xFFFFFFFF ↦ 3} is written by Encode but not read back: the hypothesis `hmax` of
+`C09_fmt12_lib` is forced by the code (0xFFFFFFFF is not a Unicode code point). -/
+theorem C09_fmt12_maxkey_refused :
+    checkGroups true 0 0 (group [(4294967295, 3)]) = false := by decide
+
+set_option maxRecDepth 8192 in
+/-- a format 6 subtable with the tolerated excess 0x0000 word -/
+example : decode6 [0, 6, 0, 12, 0, 0, 0, 65, 0, 1, 0, 7, 0, 0] = .ok [(65, 7)] := by decide
+
+set_option maxRecDepth 8192 in
+/-- **The defect repaired in `decodeFormat6`.**  With firstCode = 0xFFFE and entryCount = 3 the
+original decoder wrapped the third code to 0 (`uint16(i+firstCode)`): code 0 ↦ glyph 3, where the
+specification has no entry for code 0. -/
+theorem C09_fmt6_orig_wrap :
+    decode6Orig [0, 6, 0, 16, 0, 0, 255, 254, 0, 3, 0, 1, 0, 2, 0, 3] = .ok [(65534, 1), (65535, 2), (0, 3)] ∧
+    spec6 [0, 6, 0, 16, 0, 0, 255, 254, 0, 3, 0, 1, 0, 2, 0, 3] 0 = 0 ∧
+    decode6 [0, 6, 0, 16, 0, 0, 255, 254, 0, 3, 0, 1, 0, 2, 0, 3] = .err := by decide
+
+/-- two keys sharing one (empty) format 6 subtable, and a Macintosh key with language 5 -/
+def exTable : CmapTable.Table :=
+  [(⟨0, 3, 0⟩, [0, 6, 0, 10, 0, 0, 0, 0, 0, 0]),
+   (⟨1, 0, 5⟩, [0, 6, 0, 10, 0, 5, 0, 0, 0, 0]),
+   (⟨3, 1, 0⟩, [0, 6, 0, 10, 0, 0, 0, 0, 0, 0])]
+
+example : ∀ kd ∈ exTable, CmapTable.ValidSub kd.1 kd.2 := by
+  intro kd hkd
+  simp only [exTable, List.mem_cons, List.mem_nil_iff, or_false] at hkd
+  rcases hkd with rfl | rfl | rfl
+  · exact ⟨by decide, by decide, 6, rfl, by decide, rfl, 0, rfl, rfl⟩
+  · exact ⟨by decide, by decide, 6, rfl, by decide, rfl, 5, rfl, rfl⟩
+  · exact ⟨by decide, by decide, 6, rfl, by decide, rfl, 0, rfl, rfl⟩
+
+example : CmapTable.stored [] exTable = [[0, 6, 0, 10, 0, 0, 0, 0, 0, 0], [0, 6, 0, 10, 0, 5, 0, 0, 0, 0]] := by
+  decide
+
+/-- the shared subtable is stored once: 4 + 3·8 + 2·10 bytes -/
+example : (CmapTable.encode exTable).length = 48 := by decide
 
 end SfntV.C09b
